@@ -3,8 +3,9 @@
 Part A (life-cycle, sched-evt): the wire between two live transports is gated; the handshake is driven
 one delivered write at a time and at every quiescent point a user thread calls one auth_* method.
 Part B: Transport.connect(hostkey=...) against servers presenting the same / another key.
-Part C: SSHClient.connect(sock=VSock) over a grid of known_hosts contents x policies x stores x ports,
-judged by the independent reference vmc/refs/hostaccept.py.
+Part C: SSHClient.connect(sock=VSock) over a grid of known_hosts contents x policies x stores x ports x GSS-API
+option x credential source (password / pkey / auth_strategy) x client history (fresh / used before for another
+host), judged by the independent reference vmc/refs/hostaccept.py.
 """
 import os
 import shutil
@@ -35,7 +36,11 @@ META = {
             "vs other port, other host, empty, two server key types) x 5 policies x {load_host_keys, "
             "load_system_host_keys} x GSS-API option {not requested, gss_kex requested but not negotiated, "
             "gss_auth requested} (the server offers no GSS-API method, so an ordinary key exchange with an "
-            "ordinary host key takes place): credentials reach the server only if the reference accepts. The GSS "
+            "ordinary host key takes place) x credential source {username+password, pkey=, auth_strategy= (an "
+            "AuthStrategy yielding one Password source)} x client history {fresh SSHClient, the same SSHClient / "
+            "HostKeys objects were used for a (closed) connection to another host before - that earlier connection "
+            "is judged too} (full cross product; quick crosses a GSS option other than 'not requested' with one "
+            "store only): credentials reach the server only if the reference accepts. The GSS "
             "option is also applied to B (Transport built and connected with gss_kex=True).",
     "note": "peer is a real paramiko server Transport with a scripted ServerInterface; one canonical delivery "
             "order pair instead of all packet crossings; known_hosts wildcards/markers are outside the space; no "
@@ -793,10 +798,6 @@ def build_items(tier):
                         continue
                     for how in HOWS:
                         for prior in PRIORS:
-                            if tier == "quick" and (gss != "none") + (how != "password") + (prior != "fresh") > 1:
-                                # quick: the three option dimensions (GSS-API option, credential source, client
-                                # history) are varied one at a time; thorough: full cross product
-                                continue
                             items.append(("C", (cfg, pol, store, gss, how, prior)))
     return items
 
@@ -805,7 +806,8 @@ def main(tier):
     ck = core.Check(PID, tier, "exploration",
                     "A: case = (kex, scenario, delivery order, auth call, quiescent point at which it is made); "
                     "B: (server key set, expected key, auth, GSS option); C: (known_hosts shape, policy, store, GSS "
-                    "option: none / gss_kex requested but not negotiated / gss_auth requested). nontrivial = "
+                    "option: none / gss_kex requested but not negotiated / gss_auth requested, credential source: "
+                    "password / pkey / auth_strategy, client history: fresh / used for another host before). nontrivial = "
                     "distinct cases in which the connection was really driven to that point / configuration and "
                     "the peer-side trace was inspected",
                     ["peer = real paramiko server Transport; gated virtual wire, one write delivered per step",
